@@ -35,6 +35,7 @@ type Env struct {
 	calleeSig *types.Signature
 	calleeFn  *ssa.Function
 	calleeCon *Contract
+	calleeName string
 	logPrefix string
 	depth     int
 	goal      bool // the formula is being proved (true) or assumed (false)
@@ -780,6 +781,13 @@ func (vc *FuncVC) evalCall(env *Env, x *ECall) *CVal {
 		}
 		comp := "LG!" + env.logPrefix + L + "!" + what
 		sort, ok := vc.comps[comp]
+		if !ok && env.callee && env.calleeName != "" {
+			if info, found := vc.P.calleeLogInfo(env.calleeName)[L+"!"+what]; found {
+				vc.comp(comp, info.sort, true)
+				vc.logTypes[comp] = info.typ
+				sort, ok = info.sort, true
+			}
+		}
 		if !ok {
 			if len(x.Args) > 0 {
 				// sort hint as trailing string argument: arg(L, t, k, "Int")
